@@ -136,9 +136,19 @@ func (r *SexpRaw) Type() *RegisteredType {
 
 type SexpReflect struct {
 	Val reflect.Value
+
+	// Typ is the declared type of a variable made by (var name type);
+	// nil for a Go value handed back by a Go method.
+	Typ *RegisteredType
 }
 
 func (r *SexpReflect) Type() *RegisteredType {
+	if r.Typ != nil {
+		// The type the variable was declared with. Looking it up by the
+		// reflect name of the value finds whichever pointer or slice type
+		// the process registered last: they all share one reflect name.
+		return r.Typ
+	}
 	k := reflectName(reflect.Value(r.Val))
 	//Q("SexpReflect.Type() looking up type named '%s'", k)
 	ty, ok := GoStructRegistry.Registry[k]
